@@ -17,7 +17,7 @@
       10 cond∞(H(λ))               11 cond∞(H(λT))
       12 dphi relative error dense  13 sparse          14 forward error of dxL_d
       15 T≠L flag when λT = λ bitwise                  16 exact dphi          17 zero-step flag violation
-      18 cond∞(D⁻¹H(λ)D⁻¹)
+      18 cond∞(D⁻¹H(λ)D⁻¹)        19 gradient cancellation ‖|J|ᵀ|r|‖/‖Jᵀr‖      20 data-relative residual (max of four)
 -/
 import SmoothModel
 import SmoothModel.Optim
@@ -67,11 +67,15 @@ partial def replayCalls (x : Array Float) (pos : Nat) (ncalls : Nat) (st : Optim
 
 def optReplay (grp : String) (x : Array Float) : Except String (Array Float) := do
   if x.size < 3 then throw "short"
-  let kind ← match grp with
-    | "ceres" => pure Optim.StratKind.ceres
-    | "disney" => pure Optim.StratKind.disney
+  -- "ceres"/"disney": a freshly constructed strategy object (the MODEL's initial constants; the words δ0,
+  -- reduce0 are ignored, so the first logged `get_delta()` of the real object is compared with them);
+  -- "ceres_from"/"disney_from": explicit initial state δ0, reduce0
+  let st : Optim.Strat Float ← match grp with
+    | "ceres" => pure Optim.Strat.ceresInit
+    | "disney" => pure Optim.Strat.disneyInit
+    | "ceres_from" => pure ⟨Optim.StratKind.ceres, x[0]!, x[1]!⟩
+    | "disney_from" => pure ⟨Optim.StratKind.disney, x[0]!, x[1]!⟩
     | _ => throw s!"unknown strategy {grp}"
-  let st : Optim.Strat Float := ⟨kind, x[0]!, x[1]!⟩
   replayCalls x 3 x[2]!.toUInt64.toNat st #[]
 
 -- ------------------------------------------------------------------------------------ opt_colnorm
@@ -165,6 +169,23 @@ def descentExcess (c : TrCtx) (x : Array Rat) : Float :=
     (if c.rr == 0 then 1e300 else
       let v := ratToFloat (diff / c.rr)
       if v > 0.0 then v else 1e-300)
+
+/-- data-relative residual `‖Hx + Jᵀr‖∞ / (‖H‖∞‖x‖∞ + ‖|J|ᵀ|r|‖∞)`: what a backward-stable method achieves when the
+    right-hand side `Jᵀr` itself suffers cancellation -/
+def backwardErrData (c : TrCtx) (lam : Rat) (x : Array Rat) : Float :=
+  let res := Array.ofFn (n := c.n) (fun i =>
+    (List.range c.n).foldl (fun s j => s + c.H lam i.val j * x[j]!) 0 + c.Jtr[i.val]!)
+  let hn := rowSumNorm c.n (c.H lam)
+  let ajr := Array.ofFn (n := c.n) (fun i => (List.range c.m).foldl (fun s l => s + rabs (c.Jij l i.val) * rabs c.r[l]!) 0)
+  let den := hn * vmaxAbs x + vmaxAbs ajr
+  if den == 0 then (if vmaxAbs res == 0 then 0.0 else 1e300) else ratToFloat (vmaxAbs res / den)
+
+/-- cancellation in the gradient: `‖|J|ᵀ|r|‖∞ / ‖Jᵀr‖∞` (1 = none, large = r nearly orthogonal to range J) -/
+def gradCancellation (c : TrCtx) : Float :=
+  let ajr := Array.ofFn (n := c.n) (fun i => (List.range c.m).foldl (fun s l => s + rabs (c.Jij l i.val) * rabs c.r[l]!) 0)
+  let a := vmaxAbs ajr
+  let b := vmaxAbs c.Jtr
+  if a == 0 then 1.0 else if b == 0 then 1e300 else ratToFloat (a / b)
 
 def relDiff (a b : Array Rat) : Float :=
   let d := vmaxAbs (Array.ofFn (n := a.size) (fun i => a[i.val]! - b[i.val]!))
@@ -260,7 +281,7 @@ def optTrAudit (args : Array String) : Except String (Array Float) := do
   let cns := q.extract (o + 5 * n + 4) (o + 6 * n + 4)
   let cnr := q.extract (o + 6 * n + 4) (o + 7 * n + 4)
   if !finite then
-    return #[1.0] ++ Array.replicate 18 0.0
+    return #[1.0] ++ Array.replicate 20 0.0
   let c := mkCtx m n J d r
   let lamT := ratOfBits64 lamTdBits
   let e1 := backwardErr c lam dxLd
@@ -289,7 +310,8 @@ def optTrAudit (args : Array String) : Except String (Array Float) := do
   let gradZero := c.Jtr.all (· == 0)
   let e17 : Float :=
     if gradZero && !(dxLd.all (· == 0) && dxLs.all (· == 0) && dxTd.all (· == 0) && dxTs.all (· == 0)) then 1.0 else 0.0
-  return #[0.0, e1, e2, e3, e4, e5, e6, e7, e8, e9, exL.cond, exT.cond, e12, e13, e14, e15, exL.dphi, e17, exL.condS]
+  return #[0.0, e1, e2, e3, e4, e5, e6, e7, e8, e9, exL.cond, exT.cond, e12, e13, e14, e15, exL.dphi, e17, exL.condS, gradCancellation c,
+    fmax (fmax (backwardErrData c lam dxLd) (backwardErrData c lam dxLs)) (fmax (backwardErrData c lamT dxTd) (backwardErrData c lamT dxTs))]
 
 -- ------------------------------------------------------------------------------------ dispatch
 def fwords (r : Except String (Array Float)) : String :=
